@@ -11,6 +11,7 @@ exit 2  inconclusive (build failure, timeout, out of memory, unwinding bound too
 import json
 import os
 import random
+import shutil
 import subprocess
 import sys
 import time
@@ -40,6 +41,19 @@ def verdict_cache_path(engine, key, harness):
     d = os.path.join(CACHE, 'verdicts', engine, key)
     os.makedirs(d, exist_ok=True)
     return os.path.join(d, harness + '.json')
+
+
+def save_goto(engine, key, harness, goto_file, crate):
+    """Copy the linked goto binary Kani left for `harness` next to its verdict.
+    Returns the copy's path, or None when the binary cannot be found."""
+    src = (goto_file or '').replace('.symtab.out', '.out')
+    if not (src and os.path.exists(src)):
+        src = cex.find_goto(os.path.join(CACHE, f'target-{engine}'), crate, harness)
+    if not (src and os.path.exists(src)):
+        return None
+    dst = verdict_cache_path(engine, key, harness)[:-len('.json')] + '.goto'
+    shutil.copyfile(src, dst)
+    return dst
 
 
 def native_build(engine, profile):
@@ -157,7 +171,10 @@ def main():
                 cp = verdict_cache_path(engine, key, h)
                 if os.path.exists(cp) and not os.environ.get('VERIF_NO_CACHE'):
                     r = json.load(open(cp))
-                    if r.get('goto_file') and os.path.exists(r['goto_file']) or r.get('status') == 'SUCCESSFUL':
+                    # a FAILED verdict is only reused together with the goto binary it was
+                    # decided on (saved next to the verdict, below): the target dir is
+                    # shared, pruned and overwritten by later batches
+                    if r.get('status') == 'SUCCESSFUL' or (r.get('goto_saved') and os.path.exists(r['goto_saved'])):
                         r['reused'] = True
                         results[h] = r
                         reused += 1
@@ -175,6 +192,10 @@ def main():
                     r['reused'] = False
                     r['ran_at'] = time.strftime('%Y-%m-%dT%H:%M:%S')
                     results[h] = r
+                    if r['status'] == 'FAILED':
+                        # keep the goto binary of a failed harness (still under the engine
+                        # lock): counterexample extraction runs after the lock is released
+                        r['goto_saved'] = save_goto(engine, key, h, r.get('goto_file'), E['crate'])
                     if r['status'] in ('SUCCESSFUL', 'FAILED') and 'timeout' not in r['notes']:
                         json.dump(r, open(verdict_cache_path(engine, key, h), 'w'))
 
@@ -236,12 +257,13 @@ def main():
                 skipped_after_violation.append(f'{h}: {msg}')
                 continue
             needle = msg.strip('"')
-            goto = (r.get('goto_file') or '').replace('.symtab.out', '.out')
+            goto = r.get('goto_saved')
             if not (goto and os.path.exists(goto)):
-                goto = cex.find_goto(os.path.join(CACHE, f'target-{engine}'), E['crate'], h)
-            ids = cex.property_ids(goto, needle) if goto and os.path.exists(goto) else []
+                inconclusive.append(f'{h}: check {needle!r} failed but the goto binary of this run was not kept ({goto})')
+                continue
+            ids = cex.property_ids(goto, needle)
             got = None
-            why = 'no goto binary / property id'
+            why = 'no CBMC property carries this description'
             for prop in ids:
                 draws, why, secs = cex.extract(goto, prop, E['unwind'], P['timeout'][tier] * 2)
                 if draws is not None:
